@@ -5,7 +5,7 @@ from ..repo import AnalysisError
 from ..report import Ob, RuleSpec
 from ..astutil import (src, flat_guards, guards, calls_in, call_name, kwarg, const_value,
                        iter_own_nodes, ancestors, is_within, always_leaves, flatten_guard)
-from ..cfg import cfg_of, Prov
+from ..cfg import cfg_of, Prov, resolve_local
 from .. import variants as V
 
 PROPERTY = "C10"
@@ -272,7 +272,8 @@ def r5_nested_strict(repo):
                       "supertype-matching mode lets W<Sub<X>> unify with W<Super<T>> although type arguments are invariant "
                       "positions of the match; found same_type=%s" % (src(st) if st is not None else "default True")))
     ok = len(outer) == 1 and src(kwarg(outer[0], "same_type", 3)) == "same_type" and \
-        ("same_type", False) in _g(outer[0]) and src(outer[0].args[0]) == "supertype"
+        ("same_type", False) in _g(outer[0]) and \
+        src(resolve_local(f.node, outer[0].args[0], outer[0])) == "%s.supertypes[-1]" % f.params[0]
     obs.append(Ob("C10-R5", "supertype-matching-climbs-only-at-top-level", _w(f), ok,
                   "supertype-matching mode may only replace the whole target by one of its supertypes (top-level recursion under `not same_type`)"))
     if len(inner) < 2:
